@@ -206,3 +206,16 @@ func verifHeapRemove(i int) *tssItem { return heap.Remove(&tssQ, i).(*tssItem) }
 // before; the end-to-end extension is added afterwards and announced through PldType).
 //@   callsite spao.ComputeAuthCMAC 1 requires scionLayer.TrafficClass == dscp<<2 && scionLayer.NextHdr == slayers.L4UDP && scionLayer.DstIA == lastreadof(scionLayer).SrcIA && scionLayer.SrcIA == lastreadof(scionLayer).DstIA && sameslice(scionLayer.RawDstAddr, lastreadof(scionLayer).RawSrcAddr) && sameslice(scionLayer.RawSrcAddr, lastreadof(scionLayer).RawDstAddr)
 //@   callsite scionLayer.SerializeTo 2 requires scionLayer.TrafficClass == dscp<<2
+
+// ---- NTS-KE server: the response to a key exchange ----
+// Every cookie offered seals exactly (AES-SIV-CMAC-256, the client-to-server key, the server-to-client key) of this
+// exchange under the provider's current key; a response carries between one and eight cookies, one per successful
+// sealing, framed by the four leading records and the End of Message record; without any cookie the call fails.
+//@ func newNTSKEMsg
+//@   noframe
+//@   requires data != nil && provider != nil && log != nil
+//@   callsite plaintextCookie.EncryptWithNonce 0 requires plaintextCookie.Algo == 15 && sameslice(plaintextCookie.C2S, data.C2sKey) && sameslice(plaintextCookie.S2C, data.S2cKey) && arg1 == key.ID
+//@   loop 0 invariant plaintextCookie.Algo == 15 && sameslice(plaintextCookie.C2S, data.C2sKey) && sameslice(plaintextCookie.S2C, data.S2cKey)
+//@   loop 0 invariant len(msg.Record) == 4+int(calls("EncryptedServerCookie.Encode")) && calls("EncryptedServerCookie.Encode") <= mathint(iter()) && (addedCookie == (calls("EncryptedServerCookie.Encode") > 0))
+//@   ensures ok: result1 == nil ==> 6 <= len(result0.Record) && len(result0.Record) <= 13 && len(result0.Record) == 5+int(calls("EncryptedServerCookie.Encode"))
+//@   ensures none: result1 != nil ==> calls("EncryptedServerCookie.Encode") == 0
